@@ -56,25 +56,25 @@ theorem heartbeatFragRead_enc (le : Bool) (reader writer : List Nat) (sn : Int) 
   rw [readU32_enc le _ _ h2]; simp only []
   rw [readI32_enc le _ _ h3.1 h3.2]
 
-theorem gapRead_enc (le : Bool) (reader writer : List Nat) (start : Int) (set : SNSet) (t : List Nat)
+theorem gapRead_enc (chk le : Bool) (reader writer : List Nat) (start : Int) (set : SNSet) (t : List Nat)
     (h : (Sub.gap reader writer start set).fieldsWF) :
-    gapRead le ((Sub.gap reader writer start set).body le ++ t) = ok (.gap reader writer start set) := by
+    gapRead chk le ((Sub.gap reader writer start set).body le ++ t) = ok (.gap reader writer start set) := by
   obtain ⟨hr, hw, h1, h2⟩ := h
   simp only [gapRead, Sub.body, List.append_assoc]
   rw [readBytes_append 4 _ _ hr]; simp only []
   rw [readBytes_append 4 _ _ hw]; simp only []
   rw [readSN_enc le _ _ h1.1 h1.2]; simp only []
-  rw [snsetRead_enc le set t h2]
+  rw [snsetRead_enc chk le set t h2]
 
-theorem ackNackRead_enc (le f : Bool) (reader writer : List Nat) (set : SNSet) (count : Int) (t : List Nat)
+theorem ackNackRead_enc (chk le f : Bool) (reader writer : List Nat) (set : SNSet) (count : Int) (t : List Nat)
     (h : (Sub.ackNack f reader writer set count).fieldsWF) :
-    ackNackRead le (2 * b2n f + b2n le) ((Sub.ackNack f reader writer set count).body le ++ t) =
+    ackNackRead chk le (2 * b2n f + b2n le) ((Sub.ackNack f reader writer set count).body le ++ t) =
       ok (.ackNack f reader writer set count) := by
   obtain ⟨hr, hw, h1, h2⟩ := h
   simp only [ackNackRead, Sub.body, List.append_assoc]
   rw [readBytes_append 4 _ _ hr]; simp only []
   rw [readBytes_append 4 _ _ hw]; simp only []
-  rw [snsetRead_enc le set _ h1]; simp only []
+  rw [snsetRead_enc chk le set _ h1]; simp only []
   rw [readI32_enc le _ _ h2.1 h2.2]; simp only []
   simp [flagBits_1 f le]
 
@@ -114,17 +114,27 @@ theorem length_locatorsE_wf (le : Bool) (ls : List Locator) (h : ∀ l ∈ ls, l
     simp [locatorsE, locatorE, hl, ih (fun x hx => h x (by simp [hx]))]
     omega
 
-theorem infoReplyRead_enc (le : Bool) (uni : List Locator) (t : List Nat)
-    (h : (Sub.infoReply false uni []).fieldsWF) (hl : ((Sub.infoReply false uni []).body le).length < 65536) :
-    infoReplyRead le (0 + b2n le) ((Sub.infoReply false uni []).body le ++ t) = ok (.infoReply false uni []) := by
-  obtain ⟨_, _, h3⟩ := h
-  have hn : uni.length < 4294967296 := by
-    simp [Sub.body, locatorListE, length_locatorsE_wf le uni h3] at hl
-    omega
-  have hf : flagBit (0 + b2n le) 1 = false := by cases le <;> decide
-  simp only [infoReplyRead, Sub.body, hf, Bool.false_eq_true, if_false, List.append_nil]
-  rw [locatorListRead_enc le uni t h3 hn]
-
+theorem infoReplyRead_enc (le m : Bool) (uni multi : List Locator) (t : List Nat)
+    (h : (Sub.infoReply m uni multi).fieldsWF) (hl : ((Sub.infoReply m uni multi).body le).length < 65536) :
+    infoReplyRead le (2 * b2n m + b2n le) ((Sub.infoReply m uni multi).body le ++ t) =
+      ok (.infoReply m uni multi) := by
+  obtain ⟨hm, h3, h4⟩ := h
+  have hf : flagBit (2 * b2n m + b2n le) 1 = m := flagBits_1 m le
+  cases m
+  · have hmu := hm rfl
+    subst hmu
+    have hn : uni.length < 4294967296 := by
+      simp [Sub.body, locatorListE, length_locatorsE_wf le uni h3] at hl
+      omega
+    simp only [infoReplyRead, Sub.body, hf, Bool.false_eq_true, if_false, List.append_nil]
+    rw [locatorListRead_enc le uni t h3 hn]
+  · have hn : uni.length < 4294967296 ∧ multi.length < 4294967296 := by
+      simp [Sub.body, locatorListE, length_locatorsE_wf le uni h3, length_locatorsE_wf le multi h4] at hl
+      omega
+    simp only [infoReplyRead, Sub.body, hf, if_true, List.append_assoc]
+    rw [locatorListRead_enc le uni _ h3 hn.1]
+    simp only []
+    rw [locatorListRead_enc le multi t h4 hn.2]
 
 /-! ### DATA and DATA_FRAG -/
 theorem slice_mid (a b t : List Nat) : ((a ++ (b ++ t)).take (a.length + b.length)).drop a.length = b := by
